@@ -667,3 +667,11 @@ func c36Extra(r *Run) error {
 	r.table("C36/file-system-writers", len(bad) == 0 && n > 0, "every call of langlint that can change the file system is in rewriteFile or removeLeftovers", fmt.Sprintf("%d changing calls; elsewhere: %v", n, bad))
 	return nil
 }
+
+// c37Extra: the string round trip ParseDuration(FormatDuration(d)) == d cannot be brought under contract (the
+// parser is a character-level state machine over decimal numerals); a bounded enumeration stands in, labelled so.
+func c37Extra(r *Run) error {
+	r.boundedGoTest("C37-roundtrip", "ParseDuration(FormatDuration(d, true)) == d, and the documented spaced / day-suffixed spellings parse",
+		"every whole second in [-48h, 48h]; sign x days {0,1,2,9,10,99,100,365,1000,9999,10000,41665,41666} x hours {0,1,2,9,10,11,12,22,23} x minutes, seconds {0,1,2,9,10,30,58,59} (|d| <= 10^6 h); seven documented spellings")
+	return nil
+}
